@@ -32,6 +32,7 @@ func checkC05(p *Program, r *Report) {
 	// raw frames must own their bytes: nothing pooled may back a RawFrame body
 	poolHygiene(p, r, "pool-hygiene")
 	fullReads(p, r, "full-reads", "frame", "primitive", "compression/lz4", "compression/snappy")
+	c05HeaderFieldsVerbatim(p, r)
 
 	headerPrefix := func(fn *types.Func, n int, presets map[string]Val, v Val) map[string]bool {
 		out := map[string]bool{}
@@ -405,5 +406,37 @@ func fullReads(p *Program, r *Report, rule string, pkgs ...string) {
 	}
 	if n == 0 {
 		r.OKf(rule, "no-bare-read", token.NoPos, "packages %s read wire data only through exact-length reads", strings.Join(pkgs, ", "))
+	}
+}
+
+// c05HeaderFieldsVerbatim: EncodeHeader writes the header's own fields: the flags byte is
+// header.Flags itself (no bit added or removed on the way out), the opcode and the body length are
+// the fields. A frame decoded with a flag set re-encodes to the same bytes.
+func c05HeaderFieldsVerbatim(p *Program, r *Report) {
+	enc := p.LookupMethod("frame", "codec", "EncodeHeader")
+	pe := newPenum(p)
+	for _, v := range supportedVersions(p, pe) {
+		wr := runWire(p, enc, v, false, map[string]Val{"p0.Version": constVal(v, nil)})
+		key := "EncodeHeader flags@" + versionLabel(v)
+		bad, n := "", 0
+		for _, o := range successPaths(wr.outs) {
+			items := traceSeq(o.St.trace, o.St, wr.in)
+			if len(items) < 2 || items[1].kind != "op" {
+				continue
+			}
+			n++
+			a := items[1].arg
+			if !(a.K == KExpr && a.Key == "p0.Flags") {
+				bad = fmt.Sprintf("the flags byte written is %v, not header.Flags as it stands: a flag present in a decoded header is lost or altered when the frame is encoded again (conditions {%s})", a, describeAtoms(o.St))
+			}
+		}
+		if n == 0 {
+			continue // the version has no success path (not supported)
+		}
+		if bad != "" {
+			r.Fail("header-verbatim", key, enc.Pos(), "%s", bad)
+		} else {
+			r.OKf("header-verbatim", key, enc.Pos(), "flags byte = header.Flags")
+		}
 	}
 }
